@@ -254,7 +254,7 @@ func genLdapPlan(r *rand.Rand, tier string) *vfPlan {
 			if chance(r, 0.12) {
 				name = strings.ToUpper(u[:1]) + u[1:]
 			}
-			add(vfStep{Op: "login", Sess: pick(r, vfSessNames), User: name, A: pick(r, []string{"", "", "", "old", "wrong"}), B: pick(r, []string{"form", "form", "basic"})})
+			add(vfStep{Op: "login", Sess: pick(r, vfSessNames), User: name, A: pick(r, []string{"", "", "", "old", "wrong", "of:" + pick(r, users)}), B: pick(r, []string{"form", "form", "basic"})})
 		case x < 48:
 			add(vfStep{Op: "dir_setpw", User: u, N: int64(i)})
 		case x < 58:
@@ -272,7 +272,14 @@ func genLdapPlan(r *rand.Rand, tier string) *vfPlan {
 		case x < 92:
 			add(vfStep{Op: "outage_end"})
 		default:
-			add(vfStep{Op: "tamper", User: u, Target: pick(r, users), A: pick(r, []string{"copy", "flip", "extend", "reinsert", "foreign", "delete"}), B: pick(r, []string{"cache", "primary", "primary"}), N: int64(r.IntN(20))})
+			t := pick(r, users)
+			how := pick(r, []string{"copy", "copy", "flip", "extend", "reinsert", "foreign", "delete"})
+			add(vfStep{Op: "tamper", User: u, Target: t, A: how, B: pick(r, []string{"cache", "primary", "primary"}), N: int64(r.IntN(20))})
+			if how == "copy" && chance(r, 0.6) {
+				// the adversary then tries the source user's password on the victim's name while the directory is away
+				allDown(pick(r, []string{"down", "refuse", "error"}))
+				add(vfStep{Op: "login", Sess: pick(r, vfSessNames), User: u, A: "of:" + t})
+			}
 		}
 	}
 	add(vfStep{Op: "outage_end"})
